@@ -141,7 +141,10 @@ def _check_artefacts(mode):
             for shape in ((1,), (3,), (2, 2), (1, 3), (2, 1, 2)):
                 for arr in (rng.normal(size=shape), rng.normal(size=shape) + 1j * rng.normal(size=shape), np.zeros(shape), np.zeros(shape, dtype=complex), 1j * np.ones(shape),
                             np.arange(int(np.prod(shape))).reshape(shape), (3e-9 + 4e-9j) * np.ones(shape), 1e-12j * rng.normal(size=shape) + rng.normal(size=shape),
-                            1e-300 * np.ones(shape), (1e15 + 1e-9j) * np.ones(shape)):
+                            1e-300 * np.ones(shape), (1e15 + 1e-9j) * np.ones(shape),
+                            # imaginary (real) parts far below the other part - 1e-15, 1e-20, 1e-300 - are data, not round-off: they come back exactly
+                            rng.normal(size=shape) + 1e-15j * rng.normal(size=shape), (1.0 + 1e-20j) * np.ones(shape), (1.0 + 1e-300j) * np.ones(shape), (1e-17 + 1j) * np.ones(shape),
+                            rng.normal(size=shape).astype(np.float32), np.arange(int(np.prod(shape)), dtype=np.int32).reshape(shape), (2.0 + 0j) * np.ones(shape)):
                     back = convert_dict_to_array(json.loads(json.dumps(convert_array_to_dict(arr))))
                     if back.shape != arr.shape or not np.array_equal(back, arr):
                         return False, f"array {arr.tolist()} -> dict -> array = {back.tolist()}"
@@ -195,7 +198,8 @@ def _check_artefacts(mode):
                             (par.correlations is not None and not all(np.array_equal(x, y) for x, y in zip(b.correlations, par.correlations))):
                         return False, "Parities do not round-trip"
             return True, "ok"
-        for v, prec in ((1.5, None), (-0.25, 1e-3), (0.0, 0.0), (3e-9, 2.0)):
+        for v, prec in ((1.5, None), (-0.25, 1e-3), (0.0, 0.0), (3e-9, 2.0), (np.float64(1.5), np.float64(1e-3)), (1.5, np.int64(2)), (np.float32(0.5), np.float32(0.25)), (2, 1),
+                        (1.5, np.array(0.125)), (np.int64(3), None), (1.5, np.int32(5)), (1e300, 1e-300)):
             ve = ValueEstimate(v, prec)
             save_value_estimate(ve, P("v.json"))
             back = load_value_estimate(P("v.json"))
@@ -215,7 +219,7 @@ def _check_artefacts(mode):
                 return False, f"nmeas estimate with frame_meas={frame_meas} came back as {(K, n, fm)}"
         import itertools as it
         groups = [(0, 1), (2, 3), (4, 5), (10, 11), (5, 0), (3, 2, 7)]
-        layer_sets = [[[(0, 1), (2, 3)], [(1, 2)], []], [], [[]]]
+        layer_sets = [[[(0, 1), (2, 3)], [(1, 2)], []], [], [[]], [[(0, 1), (0, 1)], [(0, 1)], [(0, 1)]], [[(2, 3)], [(2, 3)], [], []]]
         for perm in it.permutations(groups, 3):          # every order of the qubit groups inside a layer, every order of layers (file order is the data)
             layer_sets.append([list(perm), list(perm[::-1])[:2], [perm[1]]])
         try:
@@ -239,7 +243,8 @@ def _check_artefacts(mode):
                     return False, f"circuit layers {ls} came back as {b.layers}"
             if CircuitLayers.from_dict(layers.to_dict()).layers != [list(l) for l in ls]:
                 return False, f"CircuitLayers dict round trip changed {ls}"
-        for pairs in ([(0, 1), (1, 2), (10, 11)], [(10, 11), (1, 2), (0, 1)], [(5, 0), (4, 1), (3, 2)], [], [(2, 1)]):
+        for pairs in ([(0, 1), (1, 2), (10, 11)], [(10, 11), (1, 2), (0, 1)], [(5, 0), (4, 1), (3, 2)], [], [(2, 1)],
+                      [(0, 1), (1, 2), (0, 1)], [(0, 1), (0, 1)], [(0, 1), (1, 0), (0, 1), (2, 3), (2, 3)], [(3, 3)]):          # a list is a list: repeated connections stay repeated
             conn = CircuitConnectivity(list(pairs))
             save_circuit_connectivity(conn, P("con.json"))
             with open(P("con.json")) as fh:
